@@ -756,10 +756,12 @@ func cmdCheck(args []string) int {
 		if hashBad > 0 {
 			ok = 0
 		}
-		if ok < 2 && pc.race && v.Violation.Clause == "data-race" && hashBad == 0 {
+		if ok < 2 && (pc.race && v.Violation.Clause == "data-race" && hashBad == 0 || detMismatch) {
 			// The schedule replayed identically but the detector stayed silent (its
-			// verdict is not a pure function of the schedule, see above): try another
-			// run that showed the same race before giving up on this class.
+			// verdict is not a pure function of the schedule, see above) — or runs in
+			// this batch depended on state left behind by earlier runs of the same
+			// process (determinism mismatch): try another run that showed the same
+			// class before giving up on it.
 			os.Remove(path)
 			delete(seen, c)
 			unreproduced[c] = fmt.Sprintf("violation %s/%s (seed %d) did not reproduce in %d identical-schedule replays", rf.Violation.Clause, rf.Violation.Key, rf.Seed, attempts)
